@@ -66,7 +66,7 @@ class Gen:
         self.keykind = {}
 
     def key(self, kind):
-        if self.dupkeys and self.keykind and self.rng.random() < 0.15:
+        if kind != "s" and self.dupkeys and self.keykind and self.rng.random() < 0.15:   # signal keys are never shared (handle safety)
             ks = [k for k, v in self.keykind.items() if v == kind]
             if ks:
                 return self.rng.choice(ks)
@@ -442,3 +442,280 @@ def strip_ti(lines):
 def compare(impl, mod):
     """first difference between the implementation's log and the model's (ti lines are the model's own)."""
     return C.first_diff([C.norm_nums(l) for l in impl], [C.norm_nums(l) for l in strip_ti(mod)])
+
+
+# ---------------------------------------------------------------------------------------------- C08
+def gen_targeted(rng):
+    """C08 families the random generator reaches rarely: items queued at a low level and deleted from a higher
+    level's callback in the same turn; several signal deliveries pending when the registration is deleted / modified;
+    timer handles used after fire / delete / slot reuse; a second poll_add of a descriptor followed by del / mod."""
+    g = Gen(rng)
+    fam = rng.choice(["del-queued", "sig-storm", "stale-timer", "dup-fd", "self-del"])
+    L = g.lines
+    if fam == "del-queued":
+        # LOW / MED items become ready in turn 1 (cut-off HIGH); a HIGH job deletes some of them
+        tj, kj = g.op_job_add(p=rng.choice([0, 1]))
+        tt, kt = g.op_timer_add(p=rng.choice([0, 1]), base=(0,))
+        tf, kf = g.op_poll_add(p=rng.choice([0, 1]))
+        th, kh = g.op_job_add(p=2)
+        L += ["op " + tj, "op " + tt, "op " + tf, "op " + th]
+        fd = g.fds[-1]
+        dels = rng.sample(["jd %s %d" % (tj.split()[1], kj), "td %d" % g.tregs[-1], "pd %d" % fd], rng.randint(1, 3))
+        L.append("run 2000 0 | 2000 0 r %d:1 | 0 1" % fd)          # everything queued, nothing at LOW/MED served yet? (turn 2 serves MED)
+        g.add_beh(kh, 0, [])
+        t2, k2 = g.op_job_add(p=2)
+        g.add_beh(k2, 0, dels + ([g.op_timer_add()[0]] if rng.random() < 0.5 else []))
+        L.append("op " + t2)
+        L.append("run " + " | ".join(["1000 0 r %d:1" % fd] * rng.choice([3, 4, 6])))
+        L.append("op tr %d" % g.tregs[0])
+    elif fam == "sig-storm":
+        p = rng.choice([0, 0, 1])
+        ts, ks = g.op_sig_add(p=p)
+        reg = g.nextsreg - 1
+        signo = g.sigregs[reg]["signo"]
+        L.append("op " + ts)
+        n = rng.choice([2, 2, 3])
+        L.append("run " + " | ".join(["0 0 s %d r -2:1" % signo] * (n if p == 0 else 1) + ["0 1"]))
+        how = rng.choice(["sd", "ret", "sm-sd", "cb-sd"])
+        if how == "sd":
+            L.append("op sd %d" % reg)
+        elif how == "ret":
+            g.add_beh(ks, 0, [], 1)
+        elif how == "sm-sd":
+            L.append("op sm %d %d %d %d" % (rng.choice([0, 1, 2]), signo, ks, reg))
+            L.append("run 0 0 s %d r -2:1 | 0 1" % signo)
+            L.append("op sd %d" % reg)
+        else:
+            th, kh = g.op_job_add(p=2)
+            g.add_beh(kh, 0, ["sd %d" % reg])
+            L.append("op " + th)
+        L.append("run " + " | ".join(["0 0"] * 7))
+    elif fam == "stale-timer":
+        ta, ka = g.op_timer_add(p=2, base=(0,))
+        L.append("op " + ta)
+        L.append("run 2000 0 | 2000 0 | 0 1")                       # fires
+        L.append("op td 0")
+        L.append("op tr 0")
+        tb, kb = g.op_timer_add(p=1, base=(1000000,))                 # reuses slot 0 with a new check word
+        L.append("op " + tb)
+        L.append("op td 0")                                           # stale: must not delete the new timer
+        L.append("op tr 1")
+        if rng.random() < 0.5:
+            L.append("op td 1")
+            L.append("op td 1")
+            tc, kc = g.op_timer_add(p=0, base=(0,))
+            L.append("op " + tc)
+            L.append("op td 1")
+        L.append("run 2000000 0 | 2000 0 | 2000 0 | 2000 0")
+    elif fam == "dup-fd":
+        t1, k1 = g.op_poll_add(p=1)
+        t2, k2 = g.op_poll_add(p=1)
+        fd1, fd2 = g.fds[-2], g.fds[-1]
+        L += ["op " + t1, "op " + t2, "op pd %d" % fd1, "run 0 0"]
+        t3, k3 = g.op_poll_add(p=rng.choice([0, 1, 2]), fd=fd2)      # second add of fd2: EEXIST; lands in the slot freed by fd1
+        L.append("op " + t3)
+        L.append("op " + rng.choice(["pd %d" % fd2, "pm 2 %d 5 %d" % (fd2, g.key("f")), "pd %d" % fd2]))
+        L.append("run " + " | ".join(["0 0 r %d:1" % fd2] * 4))
+    else:
+        # callbacks deleting themselves / re-adding themselves
+        tj, kj = g.op_job_add()
+        g.add_beh(kj, 0, ["jd %s %d" % (tj.split()[1], kj), "ja %s %d" % (tj.split()[1], kj)])
+        tt, kt = g.op_timer_add(base=(0,))
+        g.add_beh(kt, 0, ["td %d" % g.tregs[-1], "tr %d" % g.tregs[-1]])
+        tf, kf = g.op_poll_add()
+        fd = g.fds[-1]
+        g.add_beh(kf, 0, ["pd %d" % fd] + (["pa 1 %d 1 %d" % (fd, g.key("f"))] if rng.random() < 0.5 else []), rng.choice([0, -1]))
+        L += ["op " + tj, "op " + tt, "op " + tf]
+        L.append("run " + " | ".join(["2000 0 r %d:1" % fd] * 7))
+    return g.script()
+
+
+def script_behs(case):
+    """(key, n) -> ret from the script's beh lines"""
+    out = {}
+    for l in case:
+        w = l.split()
+        if w and w[0] == "beh":
+            out[(int(w[1]), int(w[2]))] = int(w[3])
+    return out
+
+
+def monitor_c08(lines, case):
+    """Executable statement of C08 over the implementation log; independent of the Coq model.  None or a message.
+
+    jobs:    a callback runs only for a job that was added and neither ran nor was deleted (count per key); per
+             priority, the job that runs is the oldest pending one (FIFO), checked for keys used at one priority;
+    timers:  a callback runs only for a pending timer, at most once per add; a delete of a pending timer succeeds,
+             after it the callback never runs; a handle whose timer fired / was deleted is refused (-EINVAL) and
+             is_running answers 0 for it;
+    fds:     a callback runs only for a registration that was added and not removed (poll_del returned 0, or the
+             callback returned a negative value);
+    signals: a callback runs only while its registration exists (not after signal_del returned 0 or after a
+             non-zero return), and not more often than the signal was raised while registered;
+    stop:    after qb_loop_stop from a callback the run returns without another epoll_wait.
+    Descriptors re-added while an earlier registration of the same number is still watched, and keys used for more
+    than one registration at a time, make the affected checks ambiguous: those are skipped, never guessed."""
+    evs = parse_log(lines)
+    behs = script_behs(case)
+    # scripted check words that collide (or are 0) void the freshness hypothesis: handle checks are skipped then
+    fresh = True
+    for l in case:
+        if l.startswith("rand "):
+            v = l.split()[1:]
+            fresh = len(set(v)) == len(v) and "0" not in v
+    ninv = {}
+    jobs = {}                 # key -> pending count
+    jobq = {0: [], 1: [], 2: []}
+    fifo_ok = {0: True, 1: True, 2: True}
+    jobprio = {}
+    amb_job = set()
+    timers = {}               # reg -> dict(key, state: 'pending'|'fired'|'deleted')
+    fds = {}                  # fd -> dict(key, alive) ; amb_fd set
+    amb_fd = set()
+    sigs = {}                 # reg -> dict(key, signo, alive)
+    raised = {}               # key -> deliveries that may still produce a callback
+    in_run = False
+    stop_seen = False
+    i = 0
+    n = len(evs)
+    while i < n:
+        e = evs[i]
+        if e[0] == "note":
+            return "unexpected line %r" % (e[1],)
+        nxt = evs[i + 1] if i + 1 < n else None
+        res = nxt[2] if nxt and nxt[0] == "r" else None
+        if e[0] in ("cb", "w", "runret"):
+            # the timer callback that was running (if any) has ended: that timer has fired
+            for t in timers.values():
+                if t.pop("running", None):
+                    t["state"] = "fired"
+        if e[0] == "w":
+            in_run = True
+            if stop_seen:
+                return "event %d: epoll_wait was called again after qb_loop_stop from a callback" % i
+        elif e[0] == "runret":
+            in_run = False
+            stop_seen = False
+        elif e[0] == "o":
+            w = e[1]
+            op = w[0]
+            if op == "stop" and in_run:
+                stop_seen = True
+            elif op == "ja" and res == 0:
+                p, key = int(w[1]), int(w[2])
+                jobs[key] = jobs.get(key, 0) + 1
+                jobq[p].append(key)
+                if key in jobprio and jobprio[key] != p:
+                    fifo_ok[p] = fifo_ok[jobprio[key]] = False
+                    amb_job.add(key)
+                jobprio.setdefault(key, p)
+            elif op == "jd":
+                p, key = int(w[1]), int(w[2])
+                if key in amb_job:
+                    if res == 0:
+                        jobs[key] -= 1
+                        if key in jobq[p]:
+                            jobq[p].remove(key)
+                elif res == 0:
+                    if key not in jobq[p]:
+                        return "event %d: job_del %d %d returned 0 but no such job is pending at that priority" % (i, p, key)
+                    if jobq[p].count(key) > 1:
+                        fifo_ok[p] = False
+                    jobq[p].remove(key)
+                    jobs[key] -= 1
+                elif key in jobq[p] and res is not None:
+                    return "event %d: job_del %d %d failed (%d) although such a job is pending" % (i, p, key, res)
+            elif op == "ta" and res == 0:
+                timers[int(w[4])] = {"key": int(w[3]), "state": "pending"}
+            elif op == "td":
+                t = timers.get(int(w[1]))
+                if not fresh or (t is not None and t.get("amb")):
+                    if t is not None and res == 0 and fresh:
+                        t["state"] = "deleted"
+                    if not fresh and res == 0:
+                        for x in timers.values():
+                            x["amb"] = True          # which timer a colliding handle removed is not known
+                elif t is None or t["state"] != "pending":
+                    if res == 0:
+                        return "event %d: timer_del on a handle whose timer %s returned 0" % (
+                            i, "was never added" if t is None else "already " + t["state"])
+                else:
+                    if t.get("running"):
+                        pass          # the timer's own callback: the handle is already stale (check word cleared)
+                    elif res != 0:
+                        return "event %d: timer_del of a pending timer failed (%s)" % (i, res)
+                    if res == 0:
+                        t["state"] = "deleted"
+            elif op == "tr":
+                t = timers.get(int(w[1]))
+                if fresh and not (t is not None and t.get("amb")) and \
+                        (t is None or t["state"] != "pending" or t.get("running")) and res not in (0, None):
+                    return "event %d: timer_is_running answered %d for a handle that is not pending" % (i, res)
+            elif op == "pa":
+                fd, key = int(w[2]), int(w[4])
+                if res == 0:
+                    if fd in fds and fds[fd]["alive"]:
+                        amb_fd.add(fd)
+                    fds[fd] = {"key": key, "alive": True}
+            elif op == "pm" and res == 0:
+                fd, key = int(w[2]), int(w[4])
+                if fd in fds:
+                    fds[fd]["key"] = key
+            elif op == "pd" and res == 0:
+                fd = int(w[1])
+                if fd in fds:
+                    fds[fd]["alive"] = False
+            elif op == "close":
+                pass
+            elif op == "sa" and res == 0:
+                sigs[int(w[4])] = {"key": int(w[3]), "signo": int(w[2]), "alive": True}
+            elif op == "sm" and res == 0 and int(w[4]) in sigs:
+                sigs[int(w[4])].update(key=int(w[3]), signo=int(w[2]))
+            elif op == "sd" and res == 0 and int(w[1]) in sigs:
+                sigs[int(w[1])]["alive"] = False
+        elif e[0] == "cb":
+            kind, key = e[1], e[2]
+            k = ninv.get(key, 0)
+            ninv[key] = k + 1
+            ret = behs.get((key, k), 0)
+            if kind == 0:
+                if jobs.get(key, 0) <= 0:
+                    return "event %d: job callback %d ran although no such job is pending (ran twice, or after a successful delete)" % (i, key)
+                jobs[key] -= 1
+                p = jobprio.get(key)
+                if p is not None and fifo_ok[p]:
+                    if not jobq[p] or jobq[p][0] != key:
+                        return "event %d: job %d ran before the older pending job %s of priority %d" % (
+                            i, key, jobq[p][0] if jobq[p] else "?", p)
+                    jobq[p].pop(0)
+                else:
+                    for q in (2, 1, 0):
+                        if key in jobq[q]:
+                            jobq[q].remove(key)
+                            break
+            elif kind == 1:
+                cands = [t for t in timers.values() if t["key"] == key and (t["state"] == "pending" or t.get("amb")) and not t.get("running")]
+                if not cands:
+                    return "event %d: timer callback %d ran although no such timer is pending (ran twice, or after a successful delete)" % (i, key)
+                if len(cands) == 1 and not cands[0].get("amb"):
+                    cands[0]["running"] = True
+                else:
+                    for t in cands:
+                        t["amb"] = True              # several candidates: which one ran is not known
+            elif kind == 2:
+                fd = e[3]
+                if fd not in amb_fd:
+                    r = fds.get(fd)
+                    if r is None or not r["alive"]:
+                        return "event %d: descriptor callback for fd %d ran although it is not watched (never added, deleted, or removed by a negative return)" % (i, fd)
+                    if ret < 0:
+                        r["alive"] = False
+            elif kind == 3:
+                regs = [s for s in sigs.values() if s["key"] == key]
+                if len(regs) == 1:
+                    if not regs[0]["alive"]:
+                        return "event %d: signal callback %d ran after its registration was deleted" % (i, key)
+                    if ret != 0:
+                        regs[0]["alive"] = False
+        i += 1
+    return None
